@@ -70,11 +70,42 @@ def read_sets(facts):
     for b in facts.bodies:
         direct[b.path] = direct_reads(b)
     rs = {p: set(d[0]) for p, d in direct.items()}
+    # closures: what each captured variable refers to in the creating body: (parent, closure path, capture index) -> {(param, path)}
+    captures = []
+    for b in facts.bodies:
+        flow = None
+        live = None
+        for x, si, s_ in b.stmts():
+            rv = s_.get("rv")
+            if rv and rv["k"] == "aggregate" and rv.get("akind") == "closure":
+                if live is None:
+                    live = release_live_blocks(b) & b.live_blocks()
+                    flow = core.Flow(b, transparent={"deref", "deref_mut", "borrow", "as_ref", "clone", "iter", "into_iter", "as_slice"})
+                if x not in live:
+                    continue
+                for k, o in enumerate(rv["ops"]):
+                    pl = core.op_place(o)
+                    if pl is None:
+                        continue
+                    tmp = set()
+                    _place_reads(b, pl, flow, tmp)
+                    for (pp, path) in tmp:
+                        captures.append((b.path, rv["closure"], str(k), pp, path))
     changed = True
     it = 0
     while changed and it < 30:
         changed = False
         it += 1
+        for (parent, clo, k, pp, path) in captures:
+            cur = rs.get(parent)
+            if cur is None:
+                continue
+            for (q, qpath) in list(rs.get(clo, ())):
+                if q == 1 and qpath[:1] == (k,):
+                    new = (pp, path + qpath[1:])
+                    if new not in cur:
+                        cur.add(new)
+                        changed = True
         for p, (reads, passes) in direct.items():
             cur = rs[p]
             for (cp, cparam, param, path) in passes:
@@ -182,6 +213,22 @@ def check_eq_ord_hash(ctx, res, config="all"):
                 for r in flow.roots_of_operand(t["args"][0]):
                     if r[0] == "param":
                         (lens if nm == "len" else iters).setdefault(r[1], 0)
+        # element reads by indexing (a[i]): place projections `(*p)[i]` and Index::index calls
+        live_ = release_live_blocks(b) & b.live_blocks()
+        for x, si, s_ in b.stmts():
+            if x not in live_ or s_["k"] != "assign":
+                continue
+            pls = [core.op_place(o) for o in core.rv_operands(s_["rv"])] + ([s_["rv"]["place"]] if "place" in s_["rv"] else [])
+            for pl in pls:
+                if pl and any(e["k"] in ("index", "constant_index", "subslice") for e in pl["proj"]):
+                    for r in flow.roots_of_local(pl["local"]):
+                        if r[0] == "param":
+                            iters.setdefault(r[1], 0)
+        for i, t in b.calls():
+            if callee_name(t) in ("index", "get", "get_unchecked") and t["args"] and i in live_:
+                for r in flow.roots_of_operand(t["args"][0]):
+                    if r[0] == "param":
+                        iters.setdefault(r[1], 0)
         # iteration may be via zip(a.iter().rev(), b.iter().rev()) - roots flow through 'iter' (transparent)
         ok = set(lens) >= {1, 2} and set(iters) >= {1, 2}
         if ok:
